@@ -609,6 +609,70 @@ func c15Interrupted(t *testing.T, st *vstat.Stats, p c15Crash) (v *viol, done bo
 func TestC15(t *testing.T) {
 	st := vstat.New("C15")
 	defer finish(t, st)
+	// a board that is unreachable for a moment: the submission fails, nothing is posted or retired, the operator's
+	// second attempt goes through once
+	t.Run("board-unreachable", func(t *testing.T) {
+		if replaying() {
+			return
+		}
+		si, sn := shard()
+		job := 0
+		for _, c := range [][3]any{{"honest", 2, 2}, {"twobatches", 3, 2}} {
+			tr, err := getTrace(t, c[0].(string), c[1].(int), c[2].(int))
+			if err != nil {
+				t.Fatalf("trace: %v", err)
+			}
+			for _, rec := range tr.Ops {
+				if rec.ResultFile == nil {
+					continue
+				}
+				job++
+				if job%sn != si {
+					continue
+				}
+				rec := rec
+				st.Eval()
+				var v *viol
+				synctest.Test(t, func(t *testing.T) {
+					nd, dir, err := openSnapshot(tr, rec.SnapDir)
+					defer os.RemoveAll(dir)
+					if err != nil {
+						v = violf("harness", "open snapshot: %v", err)
+						return
+					}
+					defer func() { nd.Close(); world.Drain() }()
+					nd.View.SetWatermark(1 << 30)
+					boardLen := func() int { msgs, _ := nd.View.GetMessages(0); return len(msgs) }
+					before := kvSnapshot(nd)
+					nd.View.FailSends = 1
+					err1 := nd.SubmitResult(rec.ResultFile)
+					desc := fmt.Sprintf("%s n=%d t=%d, operation %s", c[0], c[1], c[2], rec.Type)
+					if err1 == nil {
+						v = violf("send-failure-swallowed", "%s: the board refused the post, yet the submission was reported as successful", desc)
+						return
+					}
+					if d := kvDiff(before, kvSnapshot(nd)); len(d) > 0 || boardLen() != 0 {
+						v = violf("failed-submission-changed-state", "%s: the board refused the post (%v) but the node changed %v and the board holds %d message(s)", desc, clip(err1.Error(), 100), d, boardLen())
+						return
+					}
+					if err2 := nd.SubmitResult(rec.ResultFile); err2 != nil {
+						v = violf("retry-refused", "%s: after a failed post the operator's second attempt is refused: %v", desc, err2)
+						return
+					}
+					posted := boardLen()
+					ids, _, _ := pendingIDs(nd)
+					err3 := nd.SubmitResult(rec.ResultFile)
+					if posted == 0 || containsStr(ids, rec.OpID) || err3 == nil || boardLen() != posted {
+						v = violf("retry-not-exactly-once", "%s: after the successful second attempt: %d message(s) posted, still pending %v, a third attempt: %v, board now %d", desc, posted, containsStr(ids, rec.OpID), err3, boardLen())
+					}
+				})
+				if !report(t, st, "board-unreachable", v, map[string]any{"trace": c[0], "op": rec.Type}) && v == nil {
+					st.Class("board-unreachable-then-retry")
+					st.NonTrivial(fmt.Sprintf("unreachable/%s/%d/%s", c[0], c[1], rec.OpID))
+				}
+			}
+		}
+	})
 	t.Run("interrupted-retire", func(t *testing.T) {
 		if replaying() {
 			var p c15Crash
